@@ -170,7 +170,8 @@ func strGsub(L *LState) int {
 		mds = nil
 	}
 	if len(mds) == 0 {
-		L.SetTop(1)
+		// the subject as a string (the argument itself may be a number)
+		L.Push(LString(str))
 		L.Push(LNumber(0))
 		return 2
 	}
